@@ -11,7 +11,8 @@ RULE = ("Cases = dataclasses with 1-4 array fields (1-D or 2-D, int / float / bo
         "(zero-length objects included), a narrower target class, field lists of unequal length, VarLenArrays of widths 1-5 "
         "with 0-4 rows.  Oracle = the tuple of field arrays: every operation is the same numpy operation on each field; len; "
         "iteration yields entry i of every field; == is true iff all fields are equal; VarLenArray concatenation right-aligns "
-        "and left-zero-pads.  Non-trivial = at least two fields and a selector that reorders or drops entries (or a refusal).")
+        "and left-zero-pads.  Non-trivial = at least two fields and a selector that reorders or drops entries (or a refusal)."
+        "  VarLenArray operands in C / F / transposed / strided layouts; equality of a one-entry object with a longer object repeating it.")
 ASSUMPTIONS = ["field content is finite (no NaN) so that == has its ordinary meaning"]
 
 NAMES = "abcd"
@@ -49,7 +50,7 @@ def expect_fields(got, exp, what, **info):
         raise Violation(what + ":unreadable", got=r.brief(), **info)
     fs, n = r.value
     for i, (g, e) in enumerate(zip(fs, exp)):
-        if g.shape != e.shape or not arrays_equal(g, e) or (e.size and g.dtype != e.dtype):
+        if g.shape != e.shape or not arrays_equal(g, e) or g.dtype != e.dtype:
             raise Violation(what + ":field", field=NAMES[i], expected=jsonable(e), got=jsonable(g), **info)
     if exp[0].ndim and n != len(exp[0]):
         raise Violation(what + ":len", expected=len(exp[0]), got=n, **info)
@@ -226,7 +227,7 @@ def body_astype(case, ctx):
     for name in order:
         g = np.asarray(getattr(got.value, name))
         e = fs[NAMES.index(name)]
-        if g.shape != e.shape or not arrays_equal(g, e) or (e.size and g.dtype != e.dtype):
+        if g.shape != e.shape or not arrays_equal(g, e) or g.dtype != e.dtype:
             raise Violation("astype:field", field=name, target=order, expected=jsonable(e), got=jsonable(g))
     if not isinstance(got.value, T) or len(got.value) != case["n"]:
         raise Violation("astype:class-or-len", got=repr(type(got.value)))
